@@ -1,11 +1,25 @@
-from cacheprops import CACHE_TB, CACHE_ASSUMPTIONS
+from subprops import SUB_TB, SUB_ASSUMPTIONS, su_component
 
 ID = "C05"
 PROP = {
-    "unclaimed": True,
-    "modules": [], "theorems": [],
-    "components": [{"c": "su", "quick": {"n": 400}, "thorough": {"n": 5000, "seeds": 3}}],
+    "modules": ["Gnmi.Props.C05"],
+    "theorems": ["Gnmi.C05." + t for t in [
+        "once_static_exact", "walkItems_mem", "once_origin_conflict", "walk_fold", "insertHandle_walk", "pump_drains"]],
+    "components": [su_component("")],
     "monitor": "spec", "level": "proof",
-    "trusted_base": CACHE_TB, "assumptions": CACHE_ASSUMPTIONS,
-    "manifest": {"level_text": "", "level_note": "", "technique": ""},
+    "trusted_base": SUB_TB, "assumptions": SUB_ASSUMPTIONS + [
+        "a stored notification carries its target's name in the prefix (the cache routes by it); a leaf has one value in an unchanging cache (Functional)",
+    ],
+    "manifest": {
+        "level_text": "Lean 4 theorems over the code-shaped sequential model of subscribe.Server: once_static_exact (for every cache content, ACL and "
+                      "accepted ONCE request whose paths CompletePath accepts, the stream carries one update per distinct leaf that Cache.Query returns "
+                      "for a completed subscription path on a visible target — every such leaf, nothing else, each with its current notification — then "
+                      "exactly one sync_response, then status OK), walkItems_mem (the walk collects exactly the Query results of the completed paths), "
+                      "once_origin_conflict (error, no sync). POLL and the behaviour with concurrent writers: the su correspondence exercises polls "
+                      "(re-walk per trigger, one more sync) and writes placed in the walk window; the all-interleavings statement is the LTS theorem "
+                      "(Props/C05L) when listed in the evidence obligations.",
+        "level_note": "Trusted: Lean kernel; sequential model validated by the su correspondence on the real Subscribe server (all modes, '*' and "
+                      "single targets, origins, globs at every position, 0-3 polls); Go runtime.",
+        "technique": "Lean 4 proof (fold invariants over the walk and the sender loop of a code-shaped model) + model/implementation correspondence on the real Subscribe server",
+    },
 }
